@@ -1328,6 +1328,10 @@ class Converter:
                 # In this case, we create a copy of y, treating the statement as
                 # shorthand for "x = op.Identity(y)".
                 onnx_var = self._emit_copy(onnx_var, pv)
+            elif any(prev.name == onnx_var.name for prev in self._current_fn.outputs):
+                # Two carried variables are bound to the same value (e.g. after "x = y"):
+                # ONNX does not allow duplicate output names.
+                onnx_var = self._emit_copy(onnx_var, pv)
             self._current_fn.outputs.append(onnx_var)
         body = self._exit_scope()
         inputs = [o_loop_bound, o_loop_condition] + [
@@ -1372,6 +1376,10 @@ class Converter:
                     #
                     # To return an outer-scope variable, an ONNX Graph has to
                     # use an explicit copy via Identity.
+                    output = self._emit_copy(output, python_var)
+                elif any(prev.name == output.name for prev in self._current_fn.outputs):
+                    # Two live variables are bound to the same value (e.g. after "y = x"):
+                    # ONNX does not allow duplicate output names.
                     output = self._emit_copy(output, python_var)
                 self._current_fn.outputs.append(output)
             else:
